@@ -5,8 +5,8 @@
     excluded kind is named here (classes with defaults are inside: the validator ignores `default`):
       - Deque / Anything / NoneField / non-String map keys / non-scalar enum literals: the mapping raises;
       - `multiplesOf = 0`;
-      - OneOf / AllOf / NotField (need the exactness direction), AnyOf over non-scalar options:
-        corresponded only.
+      - NotField, OneOf beyond Number / Integer / String options of pairwise different JSON types,
+        AllOf beyond raw scalars, AnyOf over non-scalar options: corresponded only.
     Set and `uniqueItems` are inside, under the region's explicit hypothesis `distinctImages`.
   * `regF` / `inAdmitRegion`: (declaration, value)-level region: the value is deeply well-formed and
     outside the known-finding regions (bool stored in a numeric / enum field, value inside the gap
@@ -44,6 +44,29 @@ def rawScalar : FieldDecl → Bool
   | .number _ | .integer _ | .string _ _ _ | .enumLit _ => true
   | _ => false
 
+/-- JSON type class of a raw scalar kind -/
+inductive JK where
+  | num | str
+deriving DecidableEq
+
+def jkind : FieldDecl → Option JK
+  | .number _ | .integer _ => some .num
+  | .string _ _ _ => some .str
+  | _ => none
+
+def vkind : PyVal → Option JK
+  | .int _ | .float _ => some .num
+  | .str _ => some .str
+  | _ => none
+
+def nodupK : List (Option JK) → Bool
+  | [] => true
+  | x :: xs => !xs.contains x && nodupK xs
+
+/-- the options are Number / Integer / String with pairwise different JSON types -/
+def typeDisjoint (fs : List FieldDecl) : Bool :=
+  fs.all (fun f => (jkind f).isSome) && nodupK (fs.map jkind)
+
 /-- item kinds for which `==`-distinct stored values have JSON-distinct serializations -/
 def uniqSafe : FieldDecl → Bool
   | .enumCls _ _ => true
@@ -74,7 +97,7 @@ def fragF : FieldDecl → Bool
     nodupS (fields.map (·.1)) && fragP fields
   | .anyOf fs =>
     if optShape fs then fragOpt fs else !fs.isEmpty && fs.all plainScalar && fragL fs
-  | .oneOf _ => false
+  | .oneOf fs => !fs.isEmpty && typeDisjoint fs && fragL fs
   | .allOf fs => !fs.isEmpty && fs.all rawScalar && fragL fs
   | .notF _ => false
   | .noneF => false
@@ -189,6 +212,7 @@ def regF (O : Oracles) : FieldDecl → PyVal → Bool
     | _ => false)
   | .anyOf fs, v => if optShape fs then !v.isNone && regOpt O fs v else regAll O fs v
   | .allOf fs, v => regAll O fs v
+  | .oneOf fs, v => regAll O fs v
   | _, _ => false
 termination_by structural f _ => f
 def regZip (O : Oracles) : List FieldDecl → List PyVal → Bool
@@ -481,15 +505,29 @@ def exactScalar : FieldDecl → Bool
   | .enumCls _ names => !names.isEmpty
   | _ => false
 
+/-- an unconstrained `String()` key -/
+def exactKey : FieldDecl → Bool
+  | .string none none none => true
+  | _ => false
+
+/-- an `AnyOf` (in particular `Optional[X]`): not allowed as a direct element of an exact `Array` / `Tuple` -/
+def isOptionalF : FieldDecl → Bool
+  | .anyOf _ => true
+  | _ => false
+
 mutual
 /-- the exact fragment at field level: exact scalars, homogeneous `Array[X]` / `Tuple[X]` (no
-    `uniqueItems`, any size bounds) over it, and nested Structure classes (by `$ref`; no defaults, the
+    `uniqueItems`, any size bounds) over it, `Optional[X]` (as a class member or inside another
+    Optional-free position, not as a direct array element), `Map[String, X]` with an unconstrained key and
+    no size bounds, and nested Structure classes (by `$ref`; no defaults, the
     class accepts its own instances, required fields declared) whose fields are in it — at any depth.
     Positional items, sized or key-constrained Maps are NOT exact (findings exact:positional-shorter,
     exact:map-size, exact:map-key-constraint) -/
 def exactF : FieldDecl → Bool
-  | .seqOf k f sz => k == .list && !sz.uniq && exactF f
-  | .tupleOf f u => !u && exactF f
+  | .seqOf k f sz => k == .list && !sz.uniq && !isOptionalF f && exactF f
+  | .tupleOf f u => !u && !isOptionalF f && exactF f
+  | .anyOf fs => exactOpt fs
+  | .mapOf k vf sz => exactKey k && sz.min.isNone && sz.max.isNone && !isOptionalF vf && exactF vf
   | .struct c fields defaults =>
     !c.inline && defaults.isEmpty && c.accepts.contains c.name && nodupS (fields.map (·.1))
     && c.required.all (fields.map (·.1)).contains && exactFields fields
@@ -506,6 +544,11 @@ def exactFields : List (String × FieldDecl) → Bool
   | [] => true
   | (_, f) :: ps => exactF f && exactFields ps
 termination_by structural ps => ps
+/-- `Optional[X]` = `AnyOf[X, None]` over an exact `X` (exported as the schema of `X`) -/
+def exactOpt : List FieldDecl → Bool
+  | [] => false
+  | f :: rest => exactF f && (match rest with | [.noneF] => true | _ => false)
+termination_by structural fs => fs
 end
 
 mutual
